@@ -26,6 +26,8 @@ func init() {
 		"strconv.ParseFloat": extParseFloat,
 		"fmt.Sscanf":    extSscanf,
 		"encoding/xml.Unmarshal": extUnmarshal,
+		"encoding/xml.Marshal":       extMarshal,
+		"encoding/xml.MarshalIndent": extMarshal,
 		"(*encoding/xml.Decoder).Token": extToken,
 		"encoding/xml.NewDecoder": extNewDecoder,
 		"(*encoding/xml.Encoder).Encode":        extEncode,
